@@ -39,7 +39,7 @@ def arg_names(params: str) -> List[str]:
 
 def mk(name: str, params: str, body: str, covers=(), pre=(), timeout: float = 60.0,
        opaque: bool = True, bounds: str = "", functions=(), kf: Optional[Dict[str, str]] = None,
-       active_kf=(), prelude: str = "", cover_timeout: float = 30.0, meta=None) -> HarnessSpec:
+       active_kf=(), prelude: str = "", cover_timeout: float = 30.0, meta=None, kf_applied=None) -> HarnessSpec:
     """kf: {finding id: extra precondition (python expr over the params)}; it is applied only
     when the finding is in active_kf (i.e. its witness still fails on the current tree)."""
     names = arg_names(params)
